@@ -710,19 +710,34 @@ theorem tableEntry_step (o : Opts) (fuel : Nat) (ih : ValuesOk o fuel) (s : PS) 
       refine fok_bind _ _ _ _ (fok_report _ _ _) ?_
       intro _ _
       exact fok_weaken _ _ _ (ht s1 _ (by omega)) (fun r2 (h2 : U r2.2 ≤ U s1) => by show U r2.2 ≤ U s; omega)
+  have hkey : ∀ key0 : Option Str, FOk (fun r => U r.2 ≤ U s) ((P.pure key0).bind fun key =>
+      (nextTok o s).bind fun x =>
+        if isValueStart x.1.ty = true then (parseValue o fuel x.2).bind fun y =>
+          tableLoop o fuel y.2 (match key with | some k => tableSet o.normKey acc k y.1 | none => acc)
+        else (report CIF_MISSING_VALUE x.2.scan.line (x.2.scan.col - x.1.text.length)).bind fun _ =>
+          tableLoop o fuel x.2 (match key with | some k => tableSet o.normKey acc k V.unk | none => acc)) := by
+    intro key0
+    refine fok_bind (fun _ => True) _ _ _ (fok_pure _ _ trivial) ?_
+    intro key _
+    cases key with
+    | none => exact hrest (fun _ => acc)
+    | some k => exact hrest (fun v => tableSet o.normKey acc k v)
   cases key with
   | none =>
     rw [tableEntry]
     simp only [bind_eq, pure_eq]
-    exact hrest (fun _ => acc)
+    exact hkey none
   | some k =>
     rw [tableEntry]
     simp only [bind_eq, pure_eq]
     by_cases hd : hasDisallowed k = true
     · rw [if_pos hd]
-      exact fok_bind (fun _ => True) _ _ _ (fok_fail _ _ (by decide)) (fun _ _ => hrest (fun v => tableSet o.normKey acc k v))
+      -- since 8375485 the refused key is reported (CIF_INVALID_INDEX) and the entry dropped
+      refine fok_bind (fun _ => True) _ _ _ (fok_report _ _ _) ?_
+      intro _ _
+      exact hkey none
     · rw [if_neg hd]
-      exact hrest (fun v => tableSet o.normKey acc k v)
+      exact hkey (some k)
 
 theorem tableLoop_step (o : Opts) (fuel : Nat) (ih : ValuesOk o fuel) (s : PS) (acc : List (Str × Str × V))
     (hf : 2 * U s + 2 ≤ fuel + 1) : FOk (fun r => U r.2 ≤ U s) (tableLoop o (fuel + 1) s acc) := by
